@@ -209,6 +209,8 @@ fn captured_pool() -> Vec<(&'static str, PoolItem)> {
         ("number-infinity", n(f64::INFINITY)),
         ("number-neg-infinity", n(f64::NEG_INFINITY)),
         ("number-nan", n(f64::NAN)),
+        ("number-nan-sign-bit-set", n(f64::from_bits(0xfff8_0000_0000_0000))),
+        ("number-nan-payload", n(f64::from_bits(0x7ff8_0000_0000_0001))),
         ("number-1e21", n(1e21)),
         ("number-tiny", n(5e-324)),
         ("number-fraction", n(0.1)),
@@ -236,6 +238,11 @@ fn captured_pool() -> Vec<(&'static str, PoolItem)> {
 fn capture_bodies() -> Vec<(&'static str, &'static str)> {
     vec![
         ("bare", "cap"),
+        // built-ins that order their arguments (a NaN has to land in the same place whatever its sign bit / payload)
+        ("median-of", "median([0, cap, x])"),
+        ("percentile-of", "percentile([3, cap, x], 0)"),
+        ("sort-of", "sort([x, cap, 0])"),
+        ("min-max-of", "[min(cap, x), max(cap, x)]"),
         ("list-item", "[cap, x]"),
         ("record-value", "{v: cap, w: x}"),
         ("record-shorthand", "{cap}"),
